@@ -57,7 +57,7 @@ def env_for():
     return e
 
 
-def make_scenario(seed, idx, U):
+def make_scenario(seed, idx, U, si=False):
     rng = rng_for(seed, "C10", idx, 0)
     # ids where a later (pending) id is a substring of an earlier (already listed) one, and the reverse
     pool = ["u2", "utt3", "a-b", "u21", "utt30", "x.y"]
@@ -69,6 +69,12 @@ def make_scenario(seed, idx, U):
     lens = [int(rng.integers(300, 2500)) for _ in range(U)]
     lens[int(rng.integers(U))] = 60000  # a feature file of several hundred KiB
     cfg = {"name": "stft", "bank": {"name": "fbank", "num_filts": 5, "sampling_rate": 8000, "high_hz": 3800.0}, "frame_length_ms": 25, "frame_shift_ms": 10}
+    if si:
+        # a computer with state of its own between chunks (overlap-save buffers), and an utterance too short for a frame
+        # right before an ordinary one: which utterances share a process depends on the kill point and on --num-workers
+        cfg = {"name": "si", "bank": {"name": "gabor", "scaling_function": "mel", "num_filts": 8, "sampling_rate": 8000, "low_hz": 60.0, "high_hz": 3600.0}, "frame_shift_ms": 2.5}
+        lens = [int(rng.integers(600, 1500)) for _ in range(U)]
+        lens[1] = 6
     return {"idx": idx, "ids": ids, "lens": lens, "cfg": cfg, "pre": [{"name": "preemph"}, {"name": "dither", "coeff": 3.0}], "seed_opt": 0 if idx % 2 == 0 else int(rng.integers(1, 50)),
             "containers": [str(rng.choice(["npy", "pt"])) for _ in range(U)]}
 
@@ -437,6 +443,9 @@ def plan(tier, seed):
             # a few two-fault sequences: first fault after at least one manifest line, second early in the resumed run
             for K in (n // 2, n - 3):
                 faults.append({"mech": "stmt", "K": K, "sig": "SIGKILL", "second": int(rng.integers(1, 4)), "tag": "d%d" % K})
+            # kills of a run that uses worker processes (results may reach the output loop in groups)
+            for K in sorted({max(1, n // 3), max(1, n // 2), max(1, 2 * n // 3), max(1, n - 4)}):
+                faults.append({"mech": "stmt", "K": K, "sig": "SIGKILL", "workers": 2, "resume_workers": int(rng.integers(0, 3)), "tag": "nw2_%d" % K})
         if not q:
             for K in range(2, n, 2):
                 faults.append({"mech": "stmt", "K": K, "sig": "SIGKILL", "second": int(rng.integers(1, max(2, n // 2))), "tag": "d%d" % K})
@@ -449,6 +458,18 @@ def plan(tier, seed):
         for g in range(0, len(faults), per):
             specs.append({"cases": [{"scn": scn, "seed": seed, "faults": faults[g:g + per]}], "timeout": 3000})
         specs.append({"cases": [{"scn": scn, "seed": seed, "faults": "count"}]})
+    # a short-integration computer (state of its own between chunks) with a too-short utterance in the middle
+    scn = make_scenario(seed, 100, 3, si=True)
+    rc, wc, n = write_counts(scn, seed)
+    if rc != 0 or not n:
+        specs.append({"cases": [{"scn": scn, "seed": seed, "faults": "count"}], "note": "probe run failed rc=%r" % (rc,)})
+    else:
+        ks = sorted({max(1, n // 3), max(1, n // 2), max(1, 2 * n // 3), max(1, n - 2)}) if q else list(range(1, n + 1, 2))
+        faults = [{"mech": "stmt", "K": K, "sig": "SIGKILL", "tag": "sik%d" % K} for K in ks]
+        faults.append({"mech": "workers", "counts": [2] if q else [1, 2, 3], "tag": "siworkers"})
+        per = 6 if q else 10
+        for g in range(0, len(faults), per):
+            specs.append({"cases": [{"scn": scn, "seed": seed, "faults": faults[g:g + per]}], "timeout": 3000})
     return specs
 
 
